@@ -248,7 +248,16 @@ impl Ctx {
         self.total_viol > 0
     }
 
+    /// Print everything gathered so far; if the worker dies later, the supervisor keeps these numbers.
+    pub fn checkpoint(&mut self) {
+        self.emit(false);
+    }
+
     pub fn finish(mut self) {
+        self.emit(true);
+    }
+
+    fn emit(&mut self, last: bool) {
         IN_CASE.store(false, Ordering::Relaxed);
         let o = &mut self.out;
         if let Mode::Only(k) = self.mode {
@@ -279,7 +288,7 @@ impl Ctx {
         for (k, v) in &self.viol {
             let _ = writeln!(o, "V {}\t{}\t{}\t{}\t{}", k, v.count, v.idx, one_line(&v.desc), one_line(&v.detail));
         }
-        let _ = writeln!(o, "DONE");
+        let _ = writeln!(o, "{}", if last { "DONE" } else { "CHECKPOINT" });
         let _ = o.flush();
     }
 }
@@ -301,6 +310,7 @@ struct WorkerOut {
     last_c: Option<(u64, String)>,
     hang: Option<u64>,
     machinery: Option<String>,
+    checkpointed: bool,
 }
 
 fn parse_line(w: &mut WorkerOut, line: &str) {
@@ -316,6 +326,12 @@ fn parse_line(w: &mut WorkerOut, line: &str) {
             }
         }
         "N" => {
+            if w.checkpointed && rest.starts_with("evals ") {
+                w.samples.clear();
+                w.outcomes.clear();
+                w.viol.clear();
+                w.checkpointed = false;
+            }
             if let Some((k, v)) = rest.split_once(' ') {
                 w.nums.insert(k.to_string(), v.parse().unwrap_or(0));
             }
@@ -351,6 +367,9 @@ fn parse_line(w: &mut WorkerOut, line: &str) {
         }
         "HANG" => w.hang = rest.parse().ok(),
         "MACHINERY" => w.machinery = Some(rest.to_string()),
+        "CHECKPOINT" => {
+            w.checkpointed = true;
+        }
         "DONE" => w.done = true,
         _ => {}
     }
@@ -504,7 +523,7 @@ pub fn supervise(prop: &str, tier: Tier) -> i32 {
                 }
                 None => machinery.push(format!("worker {} died (code {:?}) outside any case", shard, code2)),
             }
-            continue;
+            // fall through: whatever the worker reported at its last checkpoint still counts
         }
         for (k, v) in &w.nums {
             *nums.entry(k.clone()).or_insert(0) += v;
